@@ -19,6 +19,7 @@ bad=0
 for id in "${ids[@]}"; do
   prop=$(python3 -c "import json;print(json.load(open('seeded/$id/meta.json'))['breaks_property'])")
   rule=$(python3 -c "import json;print(json.load(open('seeded/$id/meta.json'))['detected_by'].split(' ')[0])")
+  if [ "$rule" = "NONE" ]; then echo "$id $prop recorded as not decidable by this family (see meta.json): skipped"; continue; fi
   d=$root/$id; vd=$root/$id.verif; mkdir -p $vd; cp known-findings.json properties.jsonl $vd/
   rsync -a --exclude .git /repo/ $d/
   if ! (cd $d && patch -p1 -s --no-backup-if-mismatch < "$OLDPWD/seeded/$id/patch.diff"); then echo "$id $prop stale (patch no longer applies)"; rm -rf $d $vd; continue; fi
